@@ -138,6 +138,12 @@ func NewStream(conn net.Conn) *Stream {
 // If the context is cancelled, it closes the connection to interrupt the write.
 func (s *Stream) writeWithContext(ctx context.Context, data []byte) error {
 	if ctx.Err() != nil {
+		// Already cancelled (or past its deadline) before this write started: the
+		// exchange is abandoned mid-protocol, so close the connection exactly as the
+		// watcher below does when the cancellation lands during the write.
+		if s.conn != nil {
+			_ = s.conn.Close()
+		}
 		return ctx.Err()
 	}
 
@@ -181,6 +187,11 @@ func (s *Stream) writeWithContext(ctx context.Context, data []byte) error {
 // If the context is cancelled it closes the connection to interrupt the read.
 func (s *Stream) readWithContext(ctx context.Context, data []byte) error {
 	if ctx.Err() != nil {
+		// See writeWithContext: a cancellation observed between two I/O steps must
+		// not leave the connection open and half-used.
+		if s.conn != nil {
+			_ = s.conn.Close()
+		}
 		return ctx.Err()
 	}
 
